@@ -379,7 +379,16 @@ func (e *Engine) builtin(st *State, f *Frame, bi *ssa.Builtin, args []Val, x ssa
 			r = b.Ite(lt, t, r)
 		}
 		return Scalar{r}, actNext
-	case "Slice": // unsafe.Slice(ptr, len)
+	case "SliceData", "StringData":
+		sv, ok := args[0].(SliceV)
+		if !ok {
+			return Poison{"unsafe." + name}, actNext
+		}
+		if sv.obj == 0 {
+			return Ptr{}, actNext
+		}
+		return e.elemPtr(sv, b.BV(64, 0)), actNext
+	case "Slice", "String": // unsafe.Slice(ptr, len) / unsafe.String(ptr, len)
 		lt, ok := scalarOf(args[1])
 		if !ok {
 			return Poison{"unsafe.Slice length"}, actNext
@@ -395,7 +404,7 @@ func (e *Engine) builtin(st *State, f *Frame, bi *ssa.Builtin, args []Val, x ssa
 		}
 		if p.obj == 0 {
 			e.guard(st, b.Eq(ln, b.BV(64, 0)), "unsafe.Slice: ptr is nil and len is not zero", pos)
-			return e.nilSlice(false), actNext
+			return e.nilSlice(name == "String"), actNext
 		}
 		if len(p.path) == 0 || p.path[len(p.path)-1].field != -1 {
 			return Poison{"unsafe.Slice of a non-element pointer"}, actNext
@@ -410,7 +419,7 @@ func (e *Engine) builtin(st *State, f *Frame, bi *ssa.Builtin, args []Val, x ssa
 		e.guard(st, b.Sle(b.BV(64, 0), ln), "unsafe.Slice: len out of range", pos)
 		// the slice must stay inside the object it points into (anything else reads foreign memory)
 		e.guard(st, b.And(b.Ule(ln, b.BV(64, uint64(n))), b.Ule(off, b.Sub(b.BV(64, uint64(n)), ln))), "unsafe.Slice extends beyond the underlying buffer", pos)
-		return SliceV{obj: p.obj, base: basePath, n: n, off: off, len: ln, cap: ln}, actNext
+		return SliceV{obj: p.obj, base: basePath, n: n, off: off, len: ln, cap: ln, str: name == "String"}, actNext
 	case "print", "println", "close":
 		return nil, actNext
 	case "recover":
